@@ -17,7 +17,7 @@ for d in sorted(glob.glob(V + '/seeded/C*')):
 # group by property so a shard keeps its Lean build warm
 jobs.sort()
 for k in range(N):
-    open(f'/tmp/regress/shard{k}.txt', 'w').write(''.join(f'{p} {s}\n' for i, (p, s) in enumerate(jobs) if hash(p) % N == k))
+    open(f'/tmp/regress/shard{k}.txt', 'w').write(''.join(f'{p} {s}\n' for i, (p, s) in enumerate(jobs) if int(p[1:]) % N == k))
 print(len(jobs), 'runs')
 PY
 for k in $(seq 0 $((N-1))); do
